@@ -543,6 +543,14 @@ fn corpus(jobs: &mut Vec<Job>) {
     let t = table(vec![("id", ColType::Id, ints(&[1, 2])), ("c1", ColType::Float("edges"), vec![Cell::f(f64::INFINITY), Cell::f(1.5)])]);
     jobs.push(Job { prefix: "corpus:minmax-float-infinity/".into(), t, reals: vec![one(2), fixed_real(vec![0, 1, 2], vec![true, false], false, 999, Mode::Mem), fixed_real(vec![0, 2], vec![true], false, 999, Mode::Disk)],
         queries: vec![q_agg(Kind::Grp, vec![Item::Key(0), Item::Agg("min", 1), Item::Agg("max", 1)], "w-+I:miFmaF")] });
+    // topn-desc-nullable-string (C05/C02, open): DESC top-n over a nullable string key keeps the smallest strings
+    let t = table(vec![("id", ColType::Id, ints(&(0..9).collect::<Vec<i64>>())), ("c1", ColType::Str("lowcard"), ostrs(&[Some("a"), Some("a"), Some("x"), Some("x"), Some("x"), Some("x"), Some("a"), None, None]))]);
+    jobs.push(Job { prefix: "corpus:topn-desc-nullable-string/".into(), t, reals: vec![one(9), fixed_real(vec![0, 5, 7, 9], vec![true, false, true], false, 999, Mode::Mem), fixed_real(vec![0, 9], vec![true], false, 999, Mode::Cold)],
+        queries: vec![Query { kind: Kind::Ord, items: vec![Item::Expr(Ex::Col(0))], pred: None, order: vec![(1, true)], limit: Some(3), offset: 0, feat: "w-+ksv+lim".into() }] });
+    // null-column-nullable-filter-count (C02/C03, open): Null-typed selected column under a nullable WHERE
+    let t = table(vec![("id", ColType::Id, ints(&[0, 1, 2, 3])), ("c1", ColType::Int("small"), oints(&[None, None, None, Some(1)])), ("c2", ColType::Float("dyadic"), vec![Cell::Null, Cell::Null, Cell::f(2.5), Cell::f(3.5)])]);
+    jobs.push(Job { prefix: "corpus:null-column-nullable-filter-count/".into(), t, reals: vec![one(4), fixed_real(vec![0, 3, 4], vec![true, false], false, 999, Mode::Mem), fixed_real(vec![0, 3, 4], vec![true, true], true, 999, Mode::Mem)],
+        queries: vec![Query { kind: Kind::Sel, items: vec![Item::Expr(Ex::Col(1)), Item::Expr(Ex::Arith('-', Box::new(Ex::Col(1)), Box::new(Ex::Col(0))))], pred: Some(Ex::Cmp("<>", Box::new(Ex::Col(2)), Box::new(Ex::Lit(Cell::f(49.5))))), order: vec![], limit: None, offset: 0, feat: "w:f<>+arith-".into() }] });
     // sum-sentinel (C04/C06/C02, open): a partial SUM equal to i64::MAX is taken for NULL when merged
     let t = table(vec![("id", ColType::Id, ints(&[1, 2, 3])), ("c1", ColType::Int("edges"), ints(&[i64::MAX - 2, 1, 1]))]);
     jobs.push(Job { prefix: "corpus:sum-sentinel/".into(), t, reals: vec![one(3), fixed_real(vec![0, 2, 3], vec![true, false], false, 999, Mode::Mem), fixed_real(vec![0, 1, 3], vec![true, false], false, 999, Mode::Mem)], queries: vec![q_agg(Kind::Agg, vec![Item::Agg("sum", 1)], "w-+su")] });
